@@ -53,7 +53,7 @@ def generate(ck, prop, tier, seed):
     return vec
 
 
-def run(prop, tier, seed, rule, assumptions, shards=4, isolate=False, vlimit_kb=None, timeout=3000, extra_vec=None):
+def run(prop, tier, seed, rule, assumptions, shards=4, isolate=False, vlimit_kb=None, timeout=3000, extra_vec=None, post=None):
     ck = vlib.Check(prop, tier, seed)
     vec = generate(ck, prop, tier, seed)
     kept, total = vlib.cap_vectors(vec, 400000 if tier == "thorough" else 40000, seed, keep_first=ck.notes.get("first_part", 0))
@@ -70,6 +70,8 @@ def run(prop, tier, seed, rule, assumptions, shards=4, isolate=False, vlimit_kb=
                                "got": "fatal: " + cr["stderr"][:300], "case": {"vector_index": cr["index"]}}, 1))
     ck.triage(rr.divs, vlimit_kb=vlimit_kb, rerun=rr.again)
     os.unlink(vec)
+    if post:
+        post(ck)
     ck.exhaustive = getattr(ck, "exhaustive_replay", True)
     ck.rule = rule
     ck.assumptions = assumptions
